@@ -15,6 +15,7 @@ package engine
 
 // newErrResult: the first error sticks (C15).
 //@ func newErrResult
+//@   assigns github.com/prometheus/prometheus/promql.Result.Err@r
 //@   ensures[C15] error-recorded: result != nil && (err != nil ==> result.Err != nil) &&
 //@       (r != nil && old(r.Err) != nil ==> result.Err == old(r.Err)) && (r != nil && old(r.Err) == nil ==> result.Err == err)
 //@   ensures same-result: r != nil ==> result == r
